@@ -14,6 +14,7 @@ def runCase (c : Case) : List String :=
   | "cache" => runCache c.lines
   | "pool" => runPool c.lines
   | "soft" => runSolve c.lines
+  | "lazy" => runSolve c.lines
   | "conflictfree" => runSolve c.lines
   | f => [s!"unknown-family {f}"]
 
